@@ -37,22 +37,36 @@ def budget(tier):
 def strategy_(draw, tier):
     mol = draw(gens.mols(tier, families=("er", "skeleton", "wlhard", "chem", "deep", "deep", "multi", "collide")))
     n = len(mol["atoms"])
-    return {"mol": mol, "pi": draw(gens.perms(n)), "order": draw(gens.perms(n)), "post": draw(st.sampled_from(["none", "none", "relabel", "recanon"]))}
+    m = len(mol["bonds"])
+    return {"mol": mol, "pi": draw(gens.perms(n)), "order": draw(gens.perms(n)), "post": draw(st.sampled_from(["none", "none", "relabel", "recanon"])),
+            # the renumbered molecule may also be handed over as a molfile (atom lines, bond lines and
+            # file indices in drawn orders)
+            "route": draw(st.sampled_from(["graph", "graph", "graph", "v3000", "v2000"])), "bond_order": draw(gens.perms(m)), "flips": draw(gens.bool_list(m)),
+            "keys": draw(gens.unique_keys(n)), "style_seed": draw(st.integers(0, 1000))}
 
 
 def strategy(tier):
     return strategy_(tier)
 
 
-def classes_by_tag(mol, order=None, post="none", pi=None):
+def classes_by_tag(mol, order=None, post="none", pi=None, molfile=None):
     """Canonicalize and return class per abstract atom (tag = x coordinate = atom index).
-    `post`: hand the library a description whose labels differ from iteration positions."""
-    from .c01 import post_process
+    `post`: hand the library a description whose labels differ from iteration positions.
+    `molfile`: (route, listing, style_seed) - describe the molecule as a rendered molfile."""
+    from .c01 import molfile_ok, post_process
 
     m = mol.copy()
     for i, a in enumerate(m.atoms):
         a[4] = float(i)
-    g = post_process(mol_to_graph(m, order), {"post": post, "pi": pi or []})
+    if molfile is not None and molfile[0] in ("v3000", "v2000") and molfile_ok(m, molfile[0]) and m.n < 9000:
+        from ..lib import graph_from_molfile_text
+        from ..render import render_v2000, render_v3000
+
+        route, listing, sseed = molfile
+        text = render_v3000(m, listing, {"seed": sseed}) if route == "v3000" else render_v2000(m, listing, {"seed": sseed, "chg_by": "mline"})
+        g = call("read", graph_from_molfile_text, text)
+    else:
+        g = post_process(mol_to_graph(m, order), {"post": post, "pi": pi or []})
     c = call("canonicalize", canonicalize_molecule, g)
     cls = [None] * m.n
     for v, d in c.nodes(data=True):
@@ -87,8 +101,12 @@ def check(case, stats):
     check_equitable(mol, cls)
     pi = case["pi"]
     pm = mol.permute(pi)
-    cls2 = classes_by_tag(pm, case["order"], case.get("post", "none"), pi)
+    mf = None
+    if case.get("route", "graph") != "graph":
+        mf = (case["route"], {"order": case["order"], "keys": case["keys"], "bond_order": case["bond_order"], "flips": case["flips"]}, case.get("style_seed", 0))
+    cls2 = classes_by_tag(pm, case["order"], case.get("post", "none"), pi, molfile=mf)
     stats.label("post:" + case.get("post", "none"))
+    stats.label("route:" + case.get("route", "graph"))
     stats.evaluated()
     for a in range(n):
         if cls2[pi[a]] != cls[a]:
